@@ -97,6 +97,9 @@ func VerifC13_History() {
 	if start == 3 {
 		steps, nops = 3, 6
 	}
+	// coarse clock: the operations of the history may all read the instant the
+	// last start-state operation recorded
+	r.stall = zzverif.Bool("clock-stalls")
 
 	for s := 0; s < steps; s++ {
 		op := zzverif.Choose("op", nops)
